@@ -370,7 +370,7 @@ impl Property for C04 {
     fn runs(&self, tier: Tier) -> usize {
         match tier {
             Tier::Quick => 20_000,
-            Tier::Thorough => 120_000,
+            Tier::Thorough => 1_000_000,
         }
     }
 
